@@ -544,6 +544,12 @@ func (x *X) typeAssert(fr *Frame, st *State, in *ssa.TypeAssert) SV {
 	}
 	c, pv := x.typeTest(v, in.AssertedType)
 	c = x.vc.define("is", c)
+	if pt, ok := pv.(Term); ok {
+		// the projected value has the type invariant of the asserted type
+		if f := x.wfFact(pt, in.AssertedType, x.get(st, x.allocKey())); f.S != "true" {
+			x.vc.assume(mkImplies(c, f))
+		}
+	}
 	if !in.CommaOk {
 		x.safety(st, fr, "type-assert", c, in.Pos())
 		return pv
@@ -712,6 +718,7 @@ func (x *X) mapLen(st *State, m Term, mt *types.Map) Term {
 	_, _, lenk := x.mapKeys(ks, vs)
 	l := x.vc.define("maplen", mkIte(mkEq(m, intLit(0)), x.ic(0), mkSelect(x.get(st, lenk), m, x.enc.isz())))
 	x.vc.assume(x.ile(x.ic(0), l))
+	x.vc.assume(x.ile(l, x.ic(0x3fffffffffffffff)))
 	return l
 }
 
